@@ -24,7 +24,7 @@ PROP = "C03"
 TITLE = "Radial transforms are analytically self-consistent for all parameters"
 KINDS = ["Becke", "LinearFinite", "Identity", "LinearInfinite", "Exp", "Power", "Hyperbolic", "MultiExp", "Knowles", "Handy", "HandyMod"]
 CLS = {k: k + "RTransform" for k in KINDS}
-REQUIRED_FAMILIES = [CLS[k] for k in KINDS] + ["InverseRTransform", "pinned"]
+REQUIRED_FAMILIES = [CLS[k] for k in KINDS] + ["InverseRTransform", "pinned", "boundary"]
 REQUIRED_HOOKS = [f"decided:{c}:{m}" for c in list(CLS.values()) + ["InverseRTransform"] for m in ("deriv", "deriv2", "deriv3", "deriv_inverse", "deriv2_inverse", "deriv3_inverse", "roundtrip", "endpoint")]
 BUDGET = {"quick": 900, "thorough": 7200}  # per-worker seconds; expected on 16 idle cores: quick ~10 s, thorough ~3-4 min
 MAX_DISCARD_FRACTION = 0.02
@@ -88,6 +88,10 @@ def cases(tier, seed):
             out.append((CLS[kind], {"kind": kind, **p, "rep": rep}, cost))
             if tier == "thorough" or rep == 0 or p.get("trim", True):
                 out.append(("InverseRTransform", {"kind": kind, **p, "rep": rep, "inv": True}, cost * 1.2))
+    # structured boundary parameter values x spellings (both tiers; forward and wrapped)
+    for kind, p in _boundary():
+        out.append(("boundary", {"kind": kind, **p}, 1.5))
+        out.append(("boundary", {"kind": kind, **p, "inv": True}, 1.5))
     # pinned deterministic witnesses (fixed parameters, both tiers, run first)
     out.append(("pinned", {"kind": "HandyMod", "rmin": 0.0, "m": 3, "trim": True, "fixed": {"rmax": 12.0}}, 1e9))
     out.append(("pinned", {"kind": "HandyMod", "rmin": 0.1, "m": 2.5, "trim": True, "fixed": {"rmax": 9.1}}, 1e9))
@@ -172,6 +176,10 @@ def build(params, rng):
         frac, smax = 0.25, 0.98
         I.tag += ":noninteger-k" if kind == "Knowles" else ":noninteger-m"
     I.frac = frac
+    I.spell = params.get("spell")
+    if I.spell:
+        I.args = spelled(I.args, I.spell)
+        I.tag += ":" + I.spell
     # the inverse maps of these classes contain a 1/k-th (1/m-th, 1/power-th) root: branch point at the lower end
     I.gfrac = 0.25 if kind in ("Knowles", "Handy", "HandyMod", "Power") else 0.5
     I.tf = getattr(rt, CLS[kind])(**I.args)
@@ -188,6 +196,63 @@ def build(params, rng):
         top = 3.0 if params["bmode"] == "explicit" else 1.0
         I.x = I.xscale * (1e-3 + (top - 1e-3) * (u + 1) / 2)
     return I
+
+
+SPELLINGS = ("pyint", "pyfloat", "npfloat64", "npint64")
+
+
+def spelled(args, how):
+    """The same parameter VALUES passed as another numeric type: Python int / np.int64 for integral values (other
+    values stay Python floats), Python float, np.float64.  bool / None untouched."""
+    conv = {"pyint": int, "pyfloat": float, "npfloat64": np.float64, "npint64": np.int64}[how]
+    out = {}
+    for k, v in args.items():
+        if isinstance(v, bool) or v is None:
+            out[k] = v
+        elif how in ("pyint", "npint64"):
+            out[k] = conv(v) if float(v).is_integer() else float(v)
+        else:
+            out[k] = conv(v)
+    return out
+
+
+def _boundary():
+    """Structured BOUNDARY parameter sets (seed independent): exactly-on-threshold and round values, each with a spelling.
+    HandyMod: rmax-rmin in {2^m, 2^m +- 1 ulp, 2^m (1 +- 1e-13), 2^m-1+1e-3, 2^m-1+0.1} (2^m is where the coefficient of
+    (1+x)^m in the denominator vanishes; 2^m-1 is the edge of the admissible set); R, rmin, rmax, a, b at 0, 1, 2,
+    powers of two; k, m exactly 1 and 2."""
+    out = []
+    i = 0
+    for m in (1, 2, 3, 2.5):
+        t = 2.0**m
+        sizes = [("2^m", t), ("2^m+ulp", float(np.nextafter(t, np.inf))), ("2^m-ulp", float(np.nextafter(t, -np.inf))), ("2^m(1+1e-13)", t * (1 + 1e-13)), ("2^m(1-1e-13)", t * (1 - 1e-13)), ("2^m-1+1e-3", t - 1 + 1e-3), ("2^m-1+0.1", t - 1 + 0.1)]
+        for label, size in sizes:
+            for rmin in (0.0, 1.0, 0.5) if label == "2^m" else (0.0,):
+                spells = SPELLINGS if label == "2^m" else (SPELLINGS[i % 4],)
+                for sp in spells:
+                    i += 1
+                    out.append(("HandyMod", {"rmin": rmin, "m": m, "trim": bool(i % 2), "fixed": {"rmax": rmin + size}, "spell": sp, "edge": label}))
+    for kind in ("Becke", "MultiExp", "Knowles", "Handy"):
+        for rmin, R in ((0, 1), (0, 2), (1, 1), (1, 2), (0, 0.5), (2, 8)):
+            for km in (1, 2) if kind in ("Knowles", "Handy") else (None,):
+                i += 1
+                p = {"rmin": float(rmin), "trim": bool(i % 2), "fixed": {"R": float(R)}, "spell": SPELLINGS[i % 4], "edge": "round"}
+                if km:
+                    p["k" if kind == "Knowles" else "m"] = km
+                out.append((kind, p))
+    for rmin, rmax in ((0, 1), (-1, 1), (0, 2), (1, 2), (-2, 2)):
+        i += 1
+        out.append(("LinearFinite", {"rmin": float(rmin), "fixed": {"rmax": float(rmax)}, "spell": SPELLINGS[i % 4], "edge": "round"}))
+    for kind in ("LinearInfinite", "Exp", "Power"):
+        for rmin, rmax, b in ((1, 2, 1), (1, 16, 4), (2, 8, 2), (1, 1024, 8), (0, 8, 4)):
+            if rmin == 0 and kind != "LinearInfinite":
+                continue
+            i += 1
+            out.append((kind, {"rmin": float(rmin), "bmode": "explicit", "fixed": {"rmax": float(rmax), "b": float(b)}, "spell": SPELLINGS[i % 4], "edge": "round"}))
+    for a, b in ((1, 2.0**-6), (2, 2.0**-7), (1, 2.0**-10)):
+        i += 1
+        out.append(("Hyperbolic", {"v": 0, "fixed": {"a": float(a), "b": b}, "spell": SPELLINGS[i % 4], "edge": "round"}))
+    return out
 
 
 def endpoints(I):
@@ -420,6 +485,19 @@ def check_map(ctx, subject, hookcls, tf, x, fb, gb, frac, gfrac, xscale, chunk, 
     return {"r": r, "direction": direction, "any": any_decided, "libd": libd, "vi": vi}
 
 
+def _noise_max(fn, arg, v64):
+    """max |f(float64) - f(long double)| over the array (0 when the method has no long-double path)."""
+    with np.errstate(all="ignore"):
+        try:
+            ld = np.asarray(fn(np.asarray(arg).astype(nd.LD)))
+        except Exception:  # noqa: BLE001
+            return 0.0
+        ld = np.full(len(v64), ld, dtype=nd.LD) if ld.ndim == 0 else ld.reshape(-1)
+        d = np.abs(np.asarray(v64, dtype=float) - ld.astype(float))
+    d = d[np.isfinite(d)]
+    return float(d.max()) if d.size else 0.0
+
+
 def check_scalars(ctx, subject, tf, x, r):
     """np.float64 scalars give the same values as the array path, for every method."""
     idx = [0, len(x) // 3, len(x) // 2, len(x) - 1]
@@ -440,7 +518,10 @@ def check_scalars(ctx, subject, tf, x, r):
             s = float(s.reshape(-1)[0])
             a = float(res["a"][i])
             floor = 1e-3 * float(np.max(np.abs(res["a"][np.isfinite(res["a"])]))) if np.any(np.isfinite(res["a"])) else 0.0
-            dev = abs(s - a) / max(abs(a), floor, 1e-300) if np.isfinite(a) and np.isfinite(s) else (0.0 if (s == a or (np.isnan(s) and np.isnan(a))) else np.inf)
+            # 1-ulp differences of scalar and vectorised pow() are amplified exactly like float64 rounding: allow 100 x the
+            # measured float64 noise of the method (an identically-zero derivative obtained by cancellation is ALL noise)
+            slack = 100 * _noise_max(fn, arg, res["a"]) / 1e-6
+            dev = abs(s - a) / max(abs(a), floor, slack, 1e-300) if np.isfinite(a) and np.isfinite(s) else (0.0 if (s == a or (np.isnan(s) and np.isnan(a))) else np.inf)
             if dev > worst:
                 worst, wname = dev, name
     ctx.check("scalar-equals-array", subject, worst, 1e-6,  # largest seen 6.8e-10 (deriv3_inverse: 1-ulp pow differences amplified by 3*d2^2 - d1*d3)
@@ -473,6 +554,161 @@ def check_buffer_reuse(ctx, subject, tf, x, r):
             if dev > worst or wname is None:
                 worst, wname = max(dev, 1e-300), name
     ctx.check("answers-for-current-argument-values", subject, worst, 0.0, sig=f"stale-result-for-reused-array:{wname}", detail={"method": wname, "rel": worst})
+
+
+METHODS_X = ("transform", "deriv", "deriv2", "deriv3")
+METHODS_R = ("inverse", "deriv_inverse", "deriv2_inverse", "deriv3_inverse")
+SING_END = {"Becke": ("hi",), "Knowles": ("hi",), "Handy": ("hi",), "MultiExp": ("lo",)}
+EPS32 = float(np.finfo(np.float32).eps)
+TOL_F32 = 1e5  # float32 eps units of the scale (see check_dtypes); largest seen on decided points ~1e3
+
+
+def _outcome(fn, arg, n):
+    """(values, None) or (None, exception) of one library call; harness errors propagate."""
+    from gridrv import core
+
+    try:
+        with np.errstate(all="ignore"):
+            return _flat(fn(arg), n), None
+    except Exception as exc:  # noqa: BLE001
+        if not core.is_library_exception(exc):
+            raise
+        return None, exc
+
+
+def _int_args(lo, hi, m11, sing, include_lo):
+    """Integer VALUES lying in [lo, hi]: for [-1,1] maps the subsets [0] and [-1,0,1] minus singular ends; otherwise up to
+    12 consecutive-ish integers of the interval (0 included when it is a regular domain end)."""
+    if m11:
+        full = [v for v in (-1, 0, 1) if not ((v == -1 and "lo" in sing) or (v == 1 and "hi" in sing))]
+        return [np.array([0]), np.array(full)]
+    hi = min(hi, 2.0**31 - 1)  # representable as int32 as well
+    if not (np.isfinite(lo) and np.isfinite(hi)) or hi < lo:
+        return []
+    a = int(math.ceil(lo)) if not include_lo else int(math.floor(lo))
+    b = int(math.floor(hi))
+    if b < a:
+        return []
+    vals = np.unique(np.linspace(a, b, min(12, b - a + 1)).round().astype(np.int64))
+    return [vals]
+
+
+def check_dtypes(ctx, subject, tf, xs, rs, xint, rint, documented_int, kind_note):
+    """Input-class clause: every method gives the same VALUES for an integer-dtype (int64/int32) or float32 array as for
+    the float64 copy of the same points.
+
+    * integer arrays: equality to 1e-12 relative (integer powers vs pow()), same inf/NaN pattern, same exception type.
+      ``documented_int``: integer point arrays are the documented use (b-scaled maps, Identity, Hyperbolic on 0..n-1):
+      an exception there is a violation.  For the other maps an integer array is an accidental input class: a LOUD
+      ValueError/TypeError is counted as ``rejected`` and observed, a silently different value is still a violation.
+    * float32 arrays (mid part of the sample): |f32 - f64| <= eps32 x (1e5 x scale + 100 x measured sensitivity to the
+      argument + 100 x measured size of internally cancelling terms); points whose tolerance exceeds 5 % of the scale are undecided; a mismatch coinciding with a float32
+      overflow/underflow flag is counted, not decided.  A dtype-dependent code path gives O(1) differences.
+    """
+    worst, wname = 0.0, None
+    n_cmp = 0
+    for names, ints in ((METHODS_X, xint), (METHODS_R, rint)):
+        for vals in ints:
+            if vals.size == 0:
+                continue
+            for dt in (np.int64, np.int32):
+                ai = vals.astype(dt)
+                af = vals.astype(np.float64)
+                for name in names:
+                    fn = getattr(tf, name)
+                    vf, ef = _outcome(fn, af, af.size)
+                    vi, ei = _outcome(fn, ai, ai.size)
+                    sub = f"{subject}.{name}"
+                    if ei is not None and ef is None:
+                        loud = isinstance(ei, (ValueError, TypeError))
+                        if loud and not documented_int(names):
+                            ctx.count("rejected:int-dtype-array:" + type(ei).__name__)
+                            ctx.observe("integer-dtype point array rejected loudly by a map whose documented inputs are float nodes (numpy: integers to negative integer powers)", method=sub, error=str(ei)[:80], values=vals.tolist(), note=kind_note)
+                            continue
+                        ctx.fail("dtype-equals-float64", sub, f"raised-for-{dt.__name__}:{type(ei).__name__}", detail={"error": str(ei)[:200], "values": vals.tolist(), "args": kind_note})
+                        continue
+                    if ef is not None:
+                        # float64 path raises too (e.g. ZeroDivisionError at an end where T'=0): same behaviour required
+                        ctx.check("dtype-equals-float64", sub, ei is not None and type(ei) is type(ef), sig=f"{dt.__name__}-accepted-where-float64-raises", detail={"float64_error": str(ef)[:100]})
+                        continue
+                    with np.errstate(all="ignore"):
+                        same = (vi == vf) | (np.isnan(vi) & np.isnan(vf))
+                        fin = vf[np.isfinite(vf)]
+                        floor = 1e-3 * float(np.abs(fin).max()) if fin.size else 0.0
+                        slack = 100 * _noise_max(fn, af, vf) / 1e-12  # integer power vs pow(): ulp differences x conditioning
+                        dev = np.abs(vi - vf) / np.maximum(np.maximum(np.abs(vf), floor), max(slack, 1e-300))
+                        dev[same] = 0.0
+                        dev[~np.isfinite(dev)] = np.inf
+                    d = float(dev.max())
+                    n_cmp += 1
+                    if d > worst or wname is None:
+                        worst, wname = d, f"{name}[{dt.__name__}]"
+                    if d > 1e-12:
+                        j = int(np.argmax(dev))
+                        ctx.check("dtype-equals-float64", sub, d, 1e-12, sig=f"{dt.__name__}-array!=float64-array", detail={"value": int(vals[j]), "int_result": float(vi[j]), "float64_result": float(vf[j]), "args": kind_note})
+    if n_cmp:
+        ctx.check("dtype-equals-float64", subject, worst if worst <= 1e-12 else 0.0, 1e-12, detail={"worst_method": wname, "comparisons": n_cmp})
+        ctx.hit("decided:dtype-int")
+    # ---- float32
+    worst32, w32 = 0.0, None
+    for names, arr in ((METHODS_X, xs), (METHODS_R, rs)):
+        if arr.size < 4:
+            continue
+        a32 = arr[arr.size // 4 : 3 * arr.size // 4].astype(np.float32)
+        a64 = a32.astype(np.float64)
+        for name in names:
+            fn = getattr(tf, name)
+            v64, e64 = _outcome(fn, a64, a64.size)
+            v32, e32 = _outcome(fn, a32, a32.size)
+            sub = f"{subject}.{name}"
+            if e64 is not None or e32 is not None:
+                if (e64 is None) != (e32 is None):
+                    ctx.fail("float32-equals-float64", sub, "raised-for-one-dtype-only:" + type(e32 or e64).__name__, detail={"error": str(e32 or e64)[:200], "args": kind_note})
+                continue
+            vk, ek = _outcome(fn, a64 * (1 + 1e-6), a64.size)
+            with np.errstate(all="ignore"):
+                # float32 arithmetic also rounds the PARAMETERS and derived constants (r - rmin with rmin cast to float32,
+                # 1 - 2^m + (rmax - rmin)): observed up to ~1e3 eps32 of the scale on well-conditioned points. The
+                # sensitivity to the argument is measured (kappa = |f(a(1+1e-6)) - f(a)| / 1e-6) and added; a point is
+                # decided only while its tolerance stays below 5 % of the scale (a dtype-dependent code path is an O(1) error).
+                scale = np.maximum(np.abs(v64), 0.1 * np.nanmax(np.abs(v64)))
+                kappa = np.abs((vk if ek is None else np.full(a64.size, np.nan)) - v64) / 1e-6
+                # internal cancellation (1 - exp(-t), 3 d2^2 - d1 d3 == 0): size of the cancelling terms measured from the
+                # float64 rounding error of the same code against its long-double run, largest over this part of the sample
+                cabs = _noise_max(fn, a64, v64) / np.finfo(float).eps
+                tol = EPS32 * (TOL_F32 * scale + 100 * kappa + 100 * cabs)
+                dec = np.isfinite(tol) & (tol <= 0.05 * scale) & np.isfinite(v64)
+                dev = np.where(dec, np.abs(v32 - v64) / (tol + 1e-300), 0.0)
+                dev[dec & ((v32 == v64) | (np.isnan(v32) & np.isnan(v64)))] = 0.0
+                dev[dec & ~np.isfinite(dev)] = np.inf
+            ctx.count("float32-points-decided", int(dec.sum()))
+            ctx.count("float32-points-undecided", int(dec.size - dec.sum()))
+            if not dec.any():
+                continue
+            d = float(dev.max())
+            if d > worst32 or w32 is None:
+                worst32, w32 = d, name
+            if d > 1.0:
+                # float32 has 8 bits of exponent: (3 d2^2 - d1 d3)/d1^5 and friends leave its range for ordinary parameters.
+                # A mismatch that coincides with a float32 overflow / underflow / invalid flag is the number format, not the
+                # library: counted, not decided.
+                try:
+                    with np.errstate(over="raise", under="raise", invalid="raise", divide="ignore"):
+                        fn(a32)
+                    flagged = False
+                except FloatingPointError:
+                    flagged = True
+                except Exception:  # noqa: BLE001
+                    flagged = False
+                if flagged:
+                    ctx.count("float32-range-exceeded:" + name)
+                    d = 0.0
+                    continue
+                j = int(np.argmax(dev))
+                ctx.check("float32-equals-float64", sub, d, 1.0, sig="float32-array!=float64-array", detail={"x": float(a64[j]), "float32_result": float(v32[j]), "float64_result": float(v64[j]), "args": kind_note})
+    if w32 is not None:
+        ctx.check("float32-equals-float64", subject, worst32 if worst32 <= 1.0 else 0.0, 1.0, detail={"worst_method": w32})
+        ctx.hit("decided:dtype-float32")
 
 
 def check_endpoints(ctx, subject, hookcls, I, tf, ends):
@@ -594,6 +830,12 @@ def run_case(ctx, family, params):
         check_scalars(ctx, I.name, tf, I.x[res["vi"]], res["r"][res["vi"]])
         check_buffer_reuse(ctx, I.name, tf, I.x[res["vi"]], res["r"][res["vi"]])
         check_endpoints(ctx, I.name, CLS[I.kind], I, tf, endpoints(I))
+        m11 = I.fb == (-1.0, 1.0)
+        half = I.kind in ("Identity", "LinearInfinite", "Exp", "Power", "Hyperbolic")  # integer nodes 0..n-1 are the documented use
+        rr = res["r"][res["vi"]]
+        xint = _int_args(0.0 if half else -1.0, float(I.x.max()), m11, SING_END.get(I.kind, ()), half)
+        rint = _int_args(float(rr.min()), float(rr.max()), False, (), False) if rr.size else []
+        check_dtypes(ctx, I.name, tf, I.x[res["vi"]], rr, xint, rint, lambda names, half=half: half and names is METHODS_X, note)
         # range: images of the reference interval lie in the codomain
         lo, hi = tf.codomain
         ref_hi = float(tf.b) if I.kind in ("LinearInfinite", "Exp", "Power") else np.inf
@@ -637,6 +879,12 @@ def run_case(ctx, family, params):
         check_scalars(ctx, name, inv, r[res["vi"]], res["r"][res["vi"]])
         check_buffer_reuse(ctx, name, inv, r[res["vi"]], res["r"][res["vi"]])
         check_endpoints_inverse(ctx, name, I, inv, tf)
+        m11 = I.fb == (-1.0, 1.0)
+        half = I.kind in ("Identity", "LinearInfinite", "Exp", "Power", "Hyperbolic")
+        xx = res["r"][res["vi"]]  # the wrapper's inverse direction lives on T's domain
+        xint = _int_args(float(r.min()), float(r.max()), False, (), False)
+        rint = _int_args(0.0 if half else -1.0, float(xx.max()) if xx.size else 0.0, m11, SING_END.get(I.kind, ()), half)
+        check_dtypes(ctx, name, inv, r[res["vi"]], xx, xint, rint, lambda names: False, note)
         if not res["any"]:
             ctx.trivial()
 
